@@ -28,7 +28,8 @@ MANIFEST = {
             'oracle only. Known findings (recorded from the implementation, not modelled): F-C02-1 division/reciprocal error '
             'grows like 1/|y| and exceeds 16(1+|x|) units for |y| < 2^-5; F-C02-2 division returns 0 for every input on '
             'types with l > 2f+1 (normalisation constant 2^(f-l+1) rounds to 0); F-C02-3 sin/cos error grows like |x| '
-            '(> 4 units for |x| >= 128 on all types).',
+            '(> 4 units for |x| >= 128 on all types); F-C02-4 mpc.trunc(list) keeps no copy of its list argument, so a caller that '
+            'reverses/overwrites its list after the call (before the result is used) gets the truncation of the modified list.',
     'technique': 'Coq proof over scaled-integer model + multi-party simulator correspondence (vm_compute) + exact rational oracle',
 }
 
@@ -283,6 +284,49 @@ def model_expr(case, res, l, f, p):
     return H.model_expr(rec, p)
 
 
+def alias_stream(ctx, Sim):
+    """mpc.trunc on a LIST: the result must be the rounding of the argument as passed at call time, also
+    when the caller modifies its list afterwards (reverse / element replaced) before the result is used."""
+    for (m, t) in [(1, 0), (3, 1)]:
+        for (l, f) in [(32, 16), (16, 8)]:
+            U = 2 ** f
+            vals = [3 * U // 2, -(9 * U // 4) - 1, 3 * U, 5, -U + 3]
+            out = {}
+
+            async def prog(mpc, mods, pid, l=l, f=f, vals=vals, out=out):
+                secfxp = mpc.SecFxp(l, f)
+                res = {}
+                for mutation in ('none', 'reverse', 'replace'):
+                    x = [mpc.input(secfxp(secfxp.field(v)), senders=0) for v in vals]
+                    y = mpc.trunc(x, f=f // 2)
+                    if mutation == 'reverse':
+                        x.reverse()
+                    elif mutation == 'replace':
+                        x[0] = secfxp(1)
+                    res[mutation] = [int(v) for v in await mpc.output(y, raw=True)]
+                if pid == 0:
+                    out.update(res)
+                return res
+            sim = Sim(m=m, t=t, seed=ctx.seed + 3)
+            try:
+                sim.start()
+                r = H.run_limited(sim, prog, 120, idle_limit=3000, spins=(50 if m == 1 else 1))
+            finally:
+                H.quiet_close(sim)
+            if r is None or any(not isinstance(x, dict) for x in r):
+                ctx.broken.append({'kind': 'run', 'what': 'trunc aliasing program did not complete', 'cfg': [m, t], 'res': str(r)[:200]})
+                continue
+            k = f // 2
+            for mutation, got in out.items():
+                ctx.case({'alias': mutation, 'cfg': [m, t], 't': [l, f]}, nontrivial=mutation != 'none', kind='trunc-list ' + mutation)
+                bad = [i for i, (v, g) in enumerate(zip(vals, got)) if g not in (v // 2 ** k, -((-v) // 2 ** k))]
+                if bad:
+                    ctx.violation('trunc-list-aliasing mutation=%s' % mutation if mutation != 'none' else 'trunc-not-floor-or-ceil list',
+                                  {'cfg': [m, t], 'type': [l, f], 'argument_scaled_at_call': vals, 'trunc_bits': k,
+                                   'caller_mutation_after_call': mutation, 'got': got,
+                                   'expected_floor': [v // 2 ** k for v in vals], 'wrong_positions': bad})
+
+
 def run(ctx):
     from lib.sim import Sim
     ok = ctx.build(['MPyC.Fxp']) and ctx.check_props()
@@ -350,6 +394,7 @@ def run(ctx):
                 kk = '%s (%d,%d)' % (k, l, f)
                 stats_all[kk] = max(stats_all.get(kk, 0.0), round(v, 3))
         ctx.log('config %s done: %d cases so far' % (cfg, ncase))
+    alias_stream(ctx, Sim)
     ctx.extra['worst_error_over_bound'] = {k: stats_all[k] for k in sorted(stats_all)}
     if ok and exprs:
         res = ctx.coq_eval(['MPyC.Fxp'], exprs, chunk=150)
